@@ -32,6 +32,27 @@ class Atom:
 
 
 _CMP = ("Eq", "Ne", "Lt", "Le", "Gt", "Ge")
+_TAGS = {"Ok": 0, "Err": 1, "None": 0, "Some": 1, "Continue": 0, "Break": 1}
+_TAGGED = ("core::result::Result", "core::option::Option", "core::ops::control_flow::ControlFlow")
+
+
+def _call_value(f, env, t):
+    """abstract value of a call result: tags through `?` plumbing"""
+    n0 = t.get("resolved") or t["callee"]
+    d = t["dest"]
+    if d.get("p"):
+        return None
+    dty = str(f.locals[d["l"]])
+    if n0.endswith("FromResidual::from_residual") or "FromResidual" in n0 and n0.endswith("::from_residual"):
+        if dty.startswith("core::option::Option"):
+            return ("tag", "None")
+        if dty.startswith("core::result::Result"):
+            return ("tag", "Err")
+    if (n0.endswith("Try::branch") or "Try>::branch" in n0) and t["args"] and t["args"][0]["k"] in ("copy", "move") and not t["args"][0]["p"].get("p"):
+        v = env.get(t["args"][0]["p"]["l"])
+        if v is not None and v[0] == "tag":
+            return ("tag", "Continue" if v[1] in ("Ok", "Some", "Continue") else "Break")
+    return None
 
 
 def _assign_value(f, env, rv, b, i):
@@ -49,6 +70,13 @@ def _assign_value(f, env, rv, b, i):
         p = o["p"]
         if not p.get("p"):
             return env.get(p["l"])
+        return None
+    if k == "agg" and rv.get("ak") == "adt" and rv.get("variant") in _TAGS and str(rv.get("adt")) in _TAGGED:
+        return ("tag", rv["variant"])
+    if k == "discr" and not rv["p"].get("p"):
+        v = env.get(rv["p"]["l"])
+        if v is not None and v[0] == "tag":
+            return ("int", _TAGS[v[1]])
         return None
     if k == "bin" and rv["op"] in _CMP:
         return ("atom", Atom("cmp", b, rv["op"], [rv["a"], rv["b"]], stmt=(b, i)), False)
@@ -88,7 +116,7 @@ def extract(f, target=None, max_paths=4096, start=0, stop=(), value_at=None):
         if value_at is not None and b == value_at[0]:
             # read the boolean local `value_at[1]` on entry to this block
             v = env.get(value_at[1])
-            if v is None:
+            if v is None or v[0] not in ("const", "atom"):
                 raise Unsupported("value of _%d at bb%d is not a recognised boolean" % (value_at[1], b))
             paths.append((conds, v))
             return
@@ -110,7 +138,7 @@ def extract(f, target=None, max_paths=4096, start=0, stop=(), value_at=None):
                 paths.append((conds, ("const", False)))
             else:
                 v = env.get(0)
-                if v is None:
+                if v is None or v[0] not in ("const", "atom"):
                     raise Unsupported("return value at bb%d is not a recognised boolean" % b)
                 paths.append((conds, v))
             return
@@ -127,7 +155,10 @@ def extract(f, target=None, max_paths=4096, start=0, stop=(), value_at=None):
         if k == "call":
             d = t["dest"]
             if not d.get("p"):
-                if str(f.locals[d["l"]]) == "bool":
+                cv = _call_value(f, env, t)
+                if cv is not None:
+                    env[d["l"]] = cv
+                elif str(f.locals[d["l"]]) == "bool":
                     env[d["l"]] = ("atom", Atom("call", b, callee_names(t)[0], t["args"], term=t), False)
                 else:
                     env.pop(d["l"], None)
@@ -140,7 +171,10 @@ def extract(f, target=None, max_paths=4096, start=0, stop=(), value_at=None):
             l = op_local(t["d"])
             v = env.get(l) if l is not None else None
             tg = [(int(x), y) for x, y in t["targets"]]
-            if v is not None and str(f.locals[l]) == "bool":
+            if v is not None and v[0] == "int":
+                nxt = dict(tg).get(v[1], t["otherwise"])
+                return run(nxt, env, conds, onpath, hit)
+            if v is not None and v[0] in ("const", "atom") and str(f.locals[l]) == "bool":
                 zero = [y for x, y in tg if x == 0]
                 f_edge = zero[0] if zero else t["otherwise"]
                 ones = [y for x, y in tg if x == 1]
@@ -171,6 +205,101 @@ def extract(f, target=None, max_paths=4096, start=0, stop=(), value_at=None):
 
     run(start, {}, [], frozenset(), False)
     return paths
+
+
+def extract_outcomes(f, start, stop=(), targets=None, ret_label=None, max_paths=4096):
+    """Like `extract`, but every path ends in a *label*: reaching a block in `targets`
+    (dict block -> label) yields that label, reaching a block in `stop` yields "stop", a
+    `return` yields ret_label(block) (default "return").  Result: list of (conds, label)."""
+    targets = targets or {}
+    out = []
+    marker = object()
+
+    class _T(dict):
+        pass
+    # reuse `extract` by running it once per label set is wasteful; a small dedicated walk:
+    def run(b, env, conds, onpath):
+        if len(out) > max_paths:
+            raise Unsupported("too many paths")
+        if b in targets:
+            out.append((conds, targets[b]))
+            return
+        if b in stop:
+            out.append((conds, "stop"))
+            return
+        if b in onpath:
+            raise Unsupported("loop through bb%d" % b)
+        onpath = onpath | {b}
+        env = dict(env)
+        blk = f.blocks[b]
+        for i, s_ in enumerate(blk["s"]):
+            if s_["k"] != "a" or s_["lhs"].get("p"):
+                continue
+            l = s_["lhs"]["l"]
+            v = _assign_value(f, env, s_["rv"], b, i)
+            if v is None:
+                env.pop(l, None)
+            else:
+                env[l] = v
+        t = blk["t"]
+        k = t["k"]
+        if k == "return":
+            out.append((conds, ret_label(b) if ret_label else "return"))
+            return
+        if k in ("unreachable", "resume", "abort"):
+            return
+        if k in ("goto", "drop", "assert"):
+            return run(t["t"], env, conds, onpath)
+        if k == "call":
+            d = t["dest"]
+            if not d.get("p"):
+                cv = _call_value(f, env, t)
+                if cv is not None:
+                    env[d["l"]] = cv
+                elif str(f.locals[d["l"]]) == "bool":
+                    env[d["l"]] = ("atom", Atom("call", b, callee_names(t)[0], t["args"], term=t), False)
+                else:
+                    env.pop(d["l"], None)
+            if t.get("t") is None:
+                return
+            return run(t["t"], env, conds, onpath)
+        if k == "switch":
+            l = op_local(t["d"])
+            v = env.get(l) if l is not None else None
+            tg = [(int(x), y) for x, y in t["targets"]]
+            if v is not None and v[0] == "int":
+                nxt = dict(tg).get(v[1], t["otherwise"])
+                return run(nxt, env, conds, onpath)
+            if v is not None and v[0] in ("const", "atom") and str(f.locals[l]) == "bool":
+                zero = [y for x, y in tg if x == 0]
+                f_edge = zero[0] if zero else t["otherwise"]
+                ones = [y for x, y in tg if x == 1]
+                t_edge = ones[0] if ones else t["otherwise"]
+                if v[0] == "const":
+                    return run(t_edge if v[1] else f_edge, env, conds, onpath)
+                atom, neg = v[1], v[2]
+                for val, edge in ((True, t_edge), (False, f_edge)):
+                    e2 = dict(env)
+                    e2[l] = ("const", val)
+                    run(edge, e2, conds + [(atom, val != neg)], onpath)
+                return
+            at = Atom("switch", b, "switch@bb%d" % b, [t["d"]])
+            for x, y in tg + [("otherwise", t["otherwise"])]:
+                if f.blocks[y]["t"]["k"] == "unreachable" and not f.blocks[y]["s"]:
+                    continue
+                run(y, env, conds + [(at, x)], onpath)
+            return
+        raise Unsupported("terminator %s at bb%d" % (k, b))
+
+    run(start, {}, [], frozenset())
+    return out
+
+
+def outcome(paths, value_of):
+    for conds, label in paths:
+        if all(value_of(a) == v for a, v in conds):
+            return label
+    raise Unsupported("no path matches the valuation")
 
 
 def atoms_of(paths):
